@@ -479,6 +479,12 @@ func (g *graph) addBranch(startNode string, branch *GraphBranch, skipData bool) 
 		g.nodes[startNode].cr.inputType = branch.inputType
 		g.nodes[startNode].cr.outputType = branch.inputType
 		g.nodes[startNode].cr.genericHelper = branch.genericHelper.forPredecessorPassthrough()
+
+		// edges of this node may have been waiting for its type (a Workflow adds its branches without data
+		// flow: nothing else would look at them again)
+		if err = g.updateToValidateMap(); err != nil {
+			return err
+		}
 	}
 
 	// check branch condition type
